@@ -30,7 +30,7 @@ type c09Driver struct{}
 
 func init() { register("C09", c09Driver{}) }
 
-var c09Crafts = []string{"clock-decrease", "clock-drop", "no-name", "ctrl-char", "short-nonce", "clock-equal", "clock-add"}
+var c09Crafts = []string{"clock-decrease", "clock-drop", "no-name", "ctrl-char", "short-nonce", "clock-equal", "clock-add", "clock-swap", "clock-swap-2"}
 
 func (c09Driver) Gen(r *Rand, tier string) []json.RawMessage {
 	var res []json.RawMessage
@@ -150,6 +150,13 @@ func craftVersion(repo repository.ClockedRepo, ref, kind string) error {
 	case "clock-drop":
 		delete(times, names[0])
 	case "clock-equal": // valid
+	case "clock-swap": // a clock is dropped while another one appears: as many clocks as before
+		delete(times, names[0])
+		times["zzz-extra"] = 3
+	case "clock-swap-2": // one dropped, two added
+		delete(times, names[len(names)-1])
+		times["aaa-extra"] = 1
+		times["zzz-extra"] = 3
 	case "clock-add": // valid: one more clock than before
 		times["zzz-extra"] = 3
 	case "no-name":
